@@ -138,7 +138,7 @@ func TestVerifC01RestartWitness(t *testing.T) {
 
 	done := make(chan error, 1)
 	go func() { done <- parent.Restart(ctx) }()
-	if !vdWait(childRestarting, 10*time.Second) {
+	if !vdWait(childRestarting, 30*time.Second) {
 		close(releaseChild)
 		out.Why = "child PreStart was not re-run by Restart(parent)"
 		return
@@ -156,7 +156,7 @@ func TestVerifC01RestartWitness(t *testing.T) {
 		out.Completed = true
 		return
 	}
-	if !vdWait(m1.Entered, 5*time.Second) {
+	if !vdWait(m1.Entered, 15*time.Second) {
 		close(releaseChild)
 		out.Why = "m1 not handled"
 		return
@@ -218,7 +218,27 @@ func TestVerifC01Stress(t *testing.T) {
 				n++
 			}
 		}
+		// interleaved restarts (explicit Restart calls; supervisor restart / resume after handler panics)
+		for _, v := range []vdStressCfg{
+			{Mailbox: "unbounded", Senders: 3, PerSender: 150, Budget: 2, Procs: 4, Gate: true, Restarts: 6},
+			{Mailbox: "unbounded", Senders: 3, PerSender: 150, Budget: 32, Procs: 8, Panics: 25, Directive: "restart"},
+			{Mailbox: "segmented", Senders: 3, PerSender: 150, Budget: 1, Procs: 4, Gate: true, Panics: 10, Directive: "resume"},
+		} {
+			w.put(vdRunStress(v, seed+uint64(n)))
+			n++
+		}
 	}
+}
+
+func TestVerifC01Grain(t *testing.T) {
+	w := newVerifWriter(t, "c01_grain_out.jsonl")
+	defer w.close()
+	per := 150
+	if verifEnvInt("VERIF_THOROUGH", 0) == 1 {
+		per = 1200
+	}
+	w.put(vdRunGrainStress(5, per, 1, 4, verifSeed()+31))
+	w.put(vdRunGrainStress(4, per, 32, 8, verifSeed()+32))
 }
 
 // ---------------------------------------------------------------- (d) scripted preemption scenarios
